@@ -67,8 +67,11 @@ def build_one(exe, rng, idx):
         elif r < 0.95:
             h.send("reset " + name)
             h.tag("reset")
-        elif r < 0.97:
+        elif r < 0.96:
             h.send("radput %d" % rng.randrange(2))
+        elif r < 0.985:
+            # the unanswered count near its ceiling and near the end of its octet: abandoning a request there leaves it where it is
+            h.send("srvstate %s 2 %d" % (name, (255, 15, 255, 16, 254)[int(r * 100000) % 5]))
         else:
             # answer a status-server probe if one is outstanding (slot 0)
             h.send("pop 0")
